@@ -1,0 +1,9 @@
+//go:build verif
+
+package bridgeservice
+
+import "net/http"
+
+// VerifHandler exposes the service's real routes and handlers to the external
+// verification harness (/verif) without a listener. Only compiled with -tags verif.
+func (b *BridgeService) VerifHandler() http.Handler { return b.router }
